@@ -79,6 +79,11 @@ def normalize(raw_files, out_path, primary="n1"):
                         continue
                     o = {"ev": "msg", "run": raw["run"], "kind": classify(raw["line"], "", True),
                          "from": raw["from"], "to": raw["to"], "line": raw["line"][:200]}
+                elif ev in ("repl", "sup") and raw.get("panic"):
+                    o = {"ev": "loop_panic", "run": raw["run"], "node": raw["node"], "loop": ev, "msg": raw["msg"][:200],
+                         "self_sync": raw["msg"].startswith("replicate-since-to %s " % raw["node"])}
+                elif ev == "restarted":
+                    o = {"ev": "restarted", "run": raw["run"], "node": raw["node"]}
                 elif ev in ("quiesce", "end"):
                     o = {"ev": ev, "run": raw["run"], "quiet": raw["quiet"], "messages": raw["messages"],
                          "state": proj_state(raw["state"])}
